@@ -658,6 +658,8 @@ func (in *Interp) obligation(cond *Term, label string, fault bool) {
 				ex.mu.Lock()
 				ex.incomplete = append(ex.incomplete, "solver unknown on obligation "+label+in.whereAmI())
 				ex.mu.Unlock()
+				// the run is inconclusive for this obligation anyway; do not drag the hard constraint along
+				panic(pathEnd{"unknown-obligation"})
 			} else if r == Unsat {
 				if cond.IsFalse() {
 					panic(pathEnd{"infeasible"})
